@@ -392,6 +392,33 @@ pub fn check_session(s: &Session, rec: &mut CaseRec) -> Verdict {
                         return Verdict::fail("unlocated-error-in-program-line", format!("intent #{} {:?}: the cursor was on line {} but error {:?} names no line (renders {:?})", ii, intent, n, e.text, e.caret));
                     }
                 }
+                if kind == CallKind::Continue {
+                    if let (Some(m), Some(n)) = (e.line, sess.line_before_last_cont) {
+                        if m != n {
+                            // the failing statement stood on line n (or, the cursor being at its end, on
+                            // the line after it); only DATA items and function bodies are blamed elsewhere
+                            let listing = match sess.list() {
+                                Ok(l) => l,
+                                Err(Crash(p)) => return Verdict::fail(classify_panic(&p), format!("LIST after an error: {}", p)),
+                            };
+                            let numbered: Vec<(u64, String)> = listing
+                                .iter()
+                                .filter_map(|l| {
+                                    let (num, rest) = l.split_once(' ').unwrap_or((l.trim_end(), ""));
+                                    num.trim().parse::<u64>().ok().map(|k| (k, rest.to_ascii_uppercase().chars().filter(|c| !c.is_whitespace()).collect::<String>()))
+                                })
+                                .collect();
+                            let successor = numbered.iter().map(|(k, _)| *k).filter(|k| *k > n).min();
+                            let elsewhere_ok = numbered.iter().any(|(k, t)| *k == m && (t.contains("DATA") || t.contains("DEF")));
+                            if successor != Some(m) && !elsewhere_ok {
+                                return Verdict::fail(
+                                    "error-attributed-to-another-line",
+                                    format!("intent #{} {:?}: the cursor was on line {} but error {:?} is attributed to line {}, which is neither the next line nor a DATA / DEF line; listing {:?}", ii, intent, n, e.text, m, listing),
+                                );
+                            }
+                        }
+                    }
+                }
                 if e.line.is_some() && e.caret.len() != 2 {
                     // an error located on a program line can always be shown with that line
                     return Verdict::fail("no-source-line-for-located-error", format!("intent #{} {:?}: error {} renders {:?}", ii, intent, e.text, e.caret));
@@ -673,7 +700,7 @@ pub fn property() -> Property {
     ];
     Property {
         id: "C01",
-        rule: "Sessions of host intents (submit line / continue n turns / reply / break / seed) mapped onto protocol-respecting host calls. structured-sessions: a grammar-generated program (INPUT/STOP allowed) typed in shuffled order, then a script of RUN / CONT / LIST / NEW / TRACE / NOTRACE / STATS / INTERNALS, immediate statements, line edits and deletions, breaks, good and bad replies, boundary seeds. hostile-sessions: boundary lines (line 18446744073709551615, subscripts 2^32-1 / 2^63-1 / 1e19, 19-40 subscripts, huge GOTO targets, extreme FOR bounds, keyword soup, statements truncated at every token, recursive DEF), spliced/truncated variants, atom soup, long lines, moderate nesting. raw-sessions: arbitrary Unicode lines and replies incl. NUL, CR, LF, form feed. boundary-lines / seeds: every boundary line in three fixed scripts, every boundary seed (exhaustive). deep-nesting: 12 nesting constructs (incl. chains of 31 DEFs each nesting a call of the previous one) x depths up to 30000 (quick) / 300000 (thorough) x {interpreter, analyzer}, each in a child process on a 1 MiB main-thread stack (ulimit -s 1024), judged by exit status. Oracle: no call panics or kills the process; after every Err the state is Idle and the error renders as nothing or exactly a source line plus a blanks-then-carets line within (one past) that line, and for numbered lines the source line equals the LIST text; break yields Idle + a BREAK record; a reply yields Running; finally PRINT 7 prints exactly 7. Non-trivial: an error followed by a successful call, or break+CONT, a reply, NEW, or an edit after RUN; distinct by call-kind/outcome sequence.",
+        rule: "Sessions of host intents (submit line / continue n turns / reply / break / seed) mapped onto protocol-respecting host calls. structured-sessions: a grammar-generated program (INPUT/STOP allowed) typed in shuffled order, then a script of RUN / CONT / LIST / NEW / TRACE / NOTRACE / STATS / INTERNALS, immediate statements, line edits and deletions, breaks, good and bad replies, boundary seeds. hostile-sessions: boundary lines (line 18446744073709551615, subscripts 2^32-1 / 2^63-1 / 1e19, 19-40 subscripts, huge GOTO targets, extreme FOR bounds, keyword soup, statements truncated at every token, recursive DEF), spliced/truncated variants, atom soup, long lines, moderate nesting. raw-sessions: arbitrary Unicode lines and replies incl. NUL, CR, LF, form feed. boundary-lines / seeds: every boundary line in three fixed scripts, every boundary seed (exhaustive). deep-nesting: 12 nesting constructs (incl. chains of 31 DEFs each nesting a call of the previous one) x depths up to 30000 (quick) / 300000 (thorough) x {interpreter, analyzer}, each in a child process on a 1 MiB main-thread stack (ulimit -s 1024), judged by exit status. Oracle: no call panics or kills the process; after every Err the state is Idle; an error raised while the cursor stood on program line n names a line, namely n, the line after n, or a DATA / DEF line; an error that points into the statement line just typed renders that line; the error renders as nothing or exactly a source line plus a blanks-then-carets line within (one past) that line, and for numbered lines the source line equals the LIST text; break yields Idle + a BREAK record; a reply yields Running; finally PRINT 7 prints exactly 7. Non-trivial: an error followed by a successful call, or break+CONT, a reply, NEW, or an edit after RUN; distinct by call-kind/outcome sequence.",
         assumptions: vec![
             "native-stack exhaustion is decided for the harness build profile (opt-level 2, overflow checks on) on a 1 MiB main-thread stack: the WASM build's default stack, and in this build roughly equivalent to a debug build on the CLI's 8 MiB main thread",
             "in-process workers run on 256 MiB stacks so that only the child-process battery judges stack exhaustion",
